@@ -58,7 +58,8 @@ CONSTANTS
   Emit,        \* TRUE: print the cases (Quiet mode)
   MaxEnv,      \* Quiet: number of environment actions per behaviour
   MaxKill, MaxTick, MaxRun,   \* bounds: kill() calls, clock ticks, run() calls (1 + restarts that go ahead)
-  MaxSnaps     \* bound on snapshots in flight (state constraint of the fine-grained model)
+  MaxSnaps,    \* bound on snapshots in flight (state constraint of the fine-grained model)
+  Clobber      \* TRUE: the code as it is (named deviation ExitInfoClobber below); FALSE: the repaired extract_info_from_emission
 
 VARIABLES
   runGen,      \* number of run() calls so far (0: _runCalled is None)
@@ -71,6 +72,7 @@ VARIABLES
   restarts,    \* engine.restarts
   rcode,       \* what the last restart() returned ("-" otherwise)
   kval,        \* the current termination subject holds "Killed"
+  kdone,       \* the current termination subject is completed (a stopped subject ignores on_next: kill() is lost)
   si, sg, st,  \* subscribers of the termination subject: init / gate / post-launch:  nosub, sub, pend (delivery in flight), off
   stale,       \* a "Killed" delivery to a post-launch subscription of an EARLIER execution is still in flight
   lp,          \* launch pipeline of the current execution: none, sched, armed, started, launched, closed, dead
@@ -90,11 +92,11 @@ VARIABLES
   nkill, ntick,
   hist, obsq, ups    \* Quiet mode: environment actions so far, observations after each, updates since the last environment action
 
-vars == <<runGen, exitR, shut, proc, talive, treason, tkill, launched, finished, nlaunch, restarts, rcode, kval, si, sg, st,
+vars == <<runGen, exitR, shut, proc, talive, treason, tkill, launched, finished, nlaunch, restarts, rcode, kval, kdone, si, sg, st,
           stale, lp, lkind, sw, lreason, s2, snaps, pipe, outq, fs, fdone, done, cv, lastU, nkill, ntick, hist, obsq, ups>>
 
 engineVars == <<runGen, exitR, shut, proc, talive, treason, tkill, launched, finished, nlaunch, restarts>>
-subjVars == <<kval, si, sg, st, stale>>
+subjVars == <<kval, kdone, si, sg, st, stale>>
 pipeVars == <<lp, lkind, sw, lreason, s2>>
 emitVars == <<snaps, pipe, outq, fs, fdone, done, cv, lastU>>
 histVars == <<hist, obsq, ups>>
@@ -150,7 +152,9 @@ Now == Snap(runGen, exitR, shut, proc, talive, treason, launched, finished)
 (* the snapshot with engineExitReason = the LAUNCH step's exitReason (None for a task that was launched), engineExitCode =    *)
 (* the task's return code and lastTaskRunTime = a float.  The stream therefore says "engineExitReason: None" right after the  *)
 (* update that announced the exit; the next snapshot (clock tick, shutdown) restores the value.                               *)
-ExitInfo(s, k, r) == [s EXCEPT !["engineExitReason"] = V("None"), !["engineExitCode"] = V(TaskRC(r)), !["lastTaskRunTime"] = <<"fl", k>>]
+ExitInfo(s, k, r) == IF Clobber
+                       THEN [s EXCEPT !["engineExitReason"] = V("None"), !["engineExitCode"] = V(TaskRC(r)), !["lastTaskRunTime"] = <<"fl", k>>]
+                       ELSE [s EXCEPT !["lastTaskRunTime"] = <<"fl", k>>]
 
 Changed(old, new) == {k \in Keys : new[k] # old[k] \/ new[k] = TICK}
 Filtered(old, new) == LET ch == Changed(old, new) IN IF ch \cap StateChange # {} THEN ch \cup StateChange ELSE ch
@@ -164,7 +168,7 @@ UpdateOf(s, F) == [k \in F |-> Coarse(k, s[k])]
 Init ==
   /\ runGen = 0 /\ exitR = "none" /\ shut = FALSE /\ proc = 0 /\ talive = FALSE /\ treason = "none" /\ tkill = FALSE
   /\ launched = 0 /\ finished = 0 /\ nlaunch = 0 /\ restarts = 0 /\ rcode = "-"
-  /\ kval = FALSE /\ si = "sub" /\ sg = "nosub" /\ st = "nosub" /\ stale = FALSE
+  /\ kval = FALSE /\ kdone = FALSE /\ si = "sub" /\ sg = "nosub" /\ st = "nosub" /\ stale = FALSE
   /\ lp = "none" /\ lkind = "ok" /\ sw = "idle" /\ lreason = "none" /\ s2 = "idle"
   /\ snaps = <<>> /\ pipe = <<>> /\ outq = <<>> /\ fs = Snap(0, "none", FALSE, 0, FALSE, "none", 0, 0)
   /\ fdone = FALSE /\ done = FALSE /\ cv = [alive |-> "T", shut |-> "F", reason |-> "None", gen |-> 0] /\ lastU = <<>>
@@ -205,7 +209,7 @@ Run ==
 
 (* Engine.kill(): nothing if dead; otherwise "Killed" goes on the subject and towards every current subscriber *)
 KillEffect ==
-  IF exitR = "none" /\ ~kval
+  IF exitR = "none" /\ ~kval /\ ~kdone
     THEN /\ kval' = TRUE
          /\ si' = IF si = "sub" THEN "pend" ELSE si
          /\ sg' = IF sg = "sub" THEN "pend" ELSE sg
@@ -216,7 +220,7 @@ Kill ==
   /\ EnvOK /\ nkill < MaxKill
   /\ KillEffect /\ nkill' = nkill + 1 /\ rcode' = "-"
   /\ Record("Kill")
-  /\ UNCHANGED <<engineVars, stale, pipeVars, emitVars, ntick>>
+  /\ UNCHANGED <<engineVars, kdone, stale, pipeVars, emitVars, ntick>>
 
 (* the start timer (1 s) and the launch delay (5 s) elapse: the start value reaches take_while(exitReason() is None). *)
 (* kind = what the task generator will do at this launch                                                            *)
@@ -229,9 +233,9 @@ Fire(kind) ==
 (* Quiet mode only: the start value passes the gate, then kill() is called and delivered while the launch hop is still    *)
 (* queued (in the fine-grained model this is Fire, Kill, DeliverGate, Launch).  The task IS launched and killed afterwards. *)
 FireKL(kind) ==
-  /\ Quiet /\ EnvOK /\ lp = "armed" /\ exitR = "none" /\ ~kval /\ nkill < MaxKill
+  /\ Quiet /\ EnvOK /\ lp = "armed" /\ exitR = "none" /\ ~kval /\ ~kdone /\ nkill < MaxKill
   /\ lp' = "started" /\ lkind' = kind
-  /\ kval' = TRUE /\ si' = "off" /\ sg' = "off" /\ UNCHANGED <<st, stale>>
+  /\ kval' = TRUE /\ kdone' = (si = "sub") /\ si' = "off" /\ sg' = "off" /\ UNCHANGED <<st, stale>>
   /\ nkill' = nkill + 1 /\ rcode' = "-"
   /\ Record("FireKL:" \o kind)
   /\ UNCHANGED <<engineVars, sw, lreason, s2, emitVars, ntick>>
@@ -259,7 +263,7 @@ TaskExit(r) ==
 RestartGoes == restarts + 1 <= 3 /\ exitR \in {"SubmissionFailed", "ResourceExhausted"}
 Restart ==
   /\ EnvOK /\ exitR # "none" /\ ~shut
-  /\ kval' = FALSE /\ si' = "off" /\ sg' = "nosub" /\ st' = "nosub"
+  /\ kval' = FALSE /\ kdone' = FALSE /\ si' = (IF si = "pend" THEN "pend" ELSE "off") /\ sg' = "nosub" /\ st' = "nosub"
   /\ stale' = (stale \/ st = "pend" \/ (s2 = "pend" /\ kval))
   /\ IF RestartGoes
        THEN /\ runGen < MaxRun
@@ -293,26 +297,36 @@ Tick ==
 -----------------------------------------------------------------------------
 (* internal steps (one rx hop each) *)
 
-(* the "Killed" value reaches the subscription made in __init__: take_while(_runCalled is None) -> _setExitReason *)
+(* the "Killed" value reaches the subscription made in __init__: take_while(_runCalled is None) -> _setExitReason; in every *)
+(* case termination_observable_completed() completes self._termination_subject -- the CURRENT one.                         *)
+(* NAMED DEVIATION StaleInitCompletion: if the delivery is still in flight when restart() re-created the subject, the NEW    *)
+(* subject is completed without a value: a launch pipeline waiting at the gate ends as "Killed", and later kill() calls of   *)
+(* this execution are lost (a stopped subject ignores on_next).                                                             *)
 DeliverInit ==
-  /\ HopOK /\ si = "pend" /\ si' = "off"
+  /\ HopOK /\ si = "pend" /\ si' = "off" /\ kdone' = TRUE
   /\ IF runGen = 0
        THEN exitR' = "Killed" /\ Push(<<Snap(runGen, "Killed", shut, proc, talive, treason, launched, finished)>>)
-       ELSE UNCHANGED <<exitR, snaps>>
-  /\ UNCHANGED <<runGen, shut, proc, talive, treason, tkill, launched, finished, nlaunch, restarts, rcode, kval, sg, st, stale, pipeVars,
+            /\ UNCHANGED <<sg, st, lp>>
+       ELSE /\ UNCHANGED <<exitR, snaps>>
+            /\ IF kval \/ kdone THEN UNCHANGED <<sg, st, lp>>
+               ELSE /\ sg' = IF sg = "sub" THEN "off" ELSE sg
+                    /\ st' = IF st = "sub" THEN "off" ELSE st
+                    /\ lp' = IF sg = "sub" /\ lp = "armed" THEN "closed" ELSE lp
+  /\ UNCHANGED <<runGen, shut, proc, talive, treason, tkill, launched, finished, nlaunch, restarts, rcode, kval, stale, lkind, sw, lreason, s2,
                  pipe, outq, fs, fdone, done, cv, lastU, nkill, ntick, histVars>>
 
 (* subscribe_on hop + merge: the launch pipeline subscribes to the termination subject (replay!) and starts the timers *)
 ArmLaunch ==
-  /\ HopOK /\ lp = "sched" /\ lp' = "armed"
-  /\ sg' = IF kval THEN "pend" ELSE "sub"
-  /\ UNCHANGED <<engineVars, rcode, kval, si, st, stale, lkind, sw, lreason, s2, emitVars, nkill, ntick, histVars>>
+  /\ HopOK /\ lp = "sched"
+  /\ IF kdone /\ ~kval THEN lp' = "closed" /\ sg' = "off"          \* a completed, empty subject (StaleInitCompletion)
+                       ELSE lp' = "armed" /\ sg' = IF kval THEN "pend" ELSE "sub"
+  /\ UNCHANGED <<engineVars, rcode, kval, kdone, si, st, stale, lkind, sw, lreason, s2, emitVars, nkill, ntick, histVars>>
 
 (* "Killed" reaches the gate: if the start value has not passed yet the pipeline completes empty -> error path *)
 DeliverGate ==
   /\ HopOK /\ sg = "pend" /\ sg' = "off"
   /\ lp' = IF lp = "armed" THEN "closed" ELSE lp
-  /\ UNCHANGED <<engineVars, rcode, kval, si, st, stale, lkind, sw, lreason, s2, emitVars, nkill, ntick, histVars>>
+  /\ UNCHANGED <<engineVars, rcode, kval, kdone, si, st, stale, lkind, sw, lreason, s2, emitVars, nkill, ntick, histVars>>
 
 (* the launch hop: InitPerformanceInfo, LaunchTask (task generator), SetLaunchTime; the emission is published to the task-wait *)
 (* subscription and to the post-launch termination subscription                                                            *)
@@ -343,8 +357,8 @@ WaitStep ==
 (* after the launch emission the post-launch subscription subscribes to the termination subject (concat; replay!) *)
 TermSubscribe ==
   /\ HopOK /\ s2 = "pend" /\ s2' = "done"
-  /\ st' = IF kval THEN "pend" ELSE "sub"
-  /\ UNCHANGED <<engineVars, rcode, kval, si, sg, stale, lp, lkind, sw, lreason, emitVars, nkill, ntick, histVars>>
+  /\ st' = IF kval THEN "pend" ELSE IF kdone THEN "off" ELSE "sub"
+  /\ UNCHANGED <<engineVars, rcode, kval, kdone, si, sg, stale, lp, lkind, sw, lreason, emitVars, nkill, ntick, histVars>>
 
 (* Terminate: kill the CURRENT self.process (no-op on a dead task), emit.                                                  *)
 (* NAMED DEVIATION StaleTerminate: a delivery that belongs to an earlier execution (kill() before the task exited by itself, *)
@@ -354,20 +368,20 @@ TerminateEffect ==
   /\ Push(<<Now>>)
 DeliverTerm ==
   /\ HopOK /\ st = "pend" /\ st' = "off" /\ TerminateEffect
-  /\ UNCHANGED <<runGen, exitR, shut, proc, talive, treason, launched, finished, nlaunch, restarts, rcode, kval, si, sg, stale, pipeVars,
+  /\ UNCHANGED <<runGen, exitR, shut, proc, talive, treason, launched, finished, nlaunch, restarts, rcode, kval, kdone, si, sg, stale, pipeVars,
                  pipe, outq, fs, fdone, done, cv, lastU, nkill, ntick, histVars>>
 DeliverStale ==
   /\ HopOK /\ stale /\ stale' = FALSE /\ TerminateEffect
-  /\ UNCHANGED <<runGen, exitR, shut, proc, talive, treason, launched, finished, nlaunch, restarts, rcode, kval, si, sg, st, pipeVars,
+  /\ UNCHANGED <<runGen, exitR, shut, proc, talive, treason, launched, finished, nlaunch, restarts, rcode, kval, kdone, si, sg, st, pipeVars,
                  pipe, outq, fs, fdone, done, cv, lastU, nkill, ntick, histVars>>
 
 (* HandleTaskObservableException with SequenceContainsNoElementsError: the gate was closed before the start value *)
 HandleKilled ==
   /\ HopOK /\ lp = "closed" /\ lp' = "dead"
-  /\ exitR' = "Killed"
+  /\ exitR' = "Killed" /\ kdone' = TRUE
   /\ LET s == Snap(runGen, "Killed", shut, proc, talive, treason, launched, finished) IN Push(<<s, s>>)
-  /\ UNCHANGED <<runGen, shut, proc, talive, treason, tkill, launched, finished, nlaunch, restarts, rcode, subjVars, lkind, sw, lreason, s2,
-                 pipe, outq, fs, fdone, done, cv, lastU, nkill, ntick, histVars>>
+  /\ UNCHANGED <<runGen, shut, proc, talive, treason, tkill, launched, finished, nlaunch, restarts, rcode, kval, si, sg, st, stale, lkind, sw,
+                 lreason, s2, pipe, outq, fs, fdone, done, cv, lastU, nkill, ntick, histVars>>
 
 (* a snapshot leaves the trigger pool and enters the manual emitter *)
 EnterIdx == IF snaps = <<>> THEN {} ELSE
@@ -480,6 +494,8 @@ CompleteOnlyAfterShutdown == done => shut
 (* liveness (FairSpec): a kill on a live engine ends in a dead engine; after shutdown() the stream completes; the consumer *)
 (* eventually learns that the engine is dead                                                                              *)
 KillLeadsToDead == (kval /\ exitR = "none") ~> (exitR # "none")
+(* STRONGER, NOT satisfied when restarts are possible (StaleInitCompletion): every kill() on a live engine takes effect *)
+KillAlwaysHeard == [][(nkill' = nkill + 1 /\ exitR = "none") => kval']_vars
 ShutdownLeadsToCompletion == shut ~> done
 DeadEventuallyKnown == (shut /\ exitR # "none") ~> (cv.alive = "F" \/ done)
 
